@@ -2,7 +2,7 @@ SPECIFICATION Spec
 CONSTANTS
   Threads = {1, 2}
   MaxOps = 3
-  Atomic = FALSE
-  Block = 1
-INVARIANTS TypeOK IncreasingPerThread
+  Atomic = TRUE
+  Block = 2
+INVARIANTS TypeOK HappensBeforeOrdered
 CHECK_DEADLOCK FALSE
